@@ -1,0 +1,39 @@
+//go:build verif
+
+package openflow13
+
+import "sort"
+
+// Verification hooks (build tag "verif" only). Add-only: they export
+// package-private helpers and a read-only view of the match-field registry so
+// that an external monitor can observe them. Nothing here is compiled into a
+// normal build.
+
+// VerifRegistryNames returns the names stored in the match-field registry.
+func VerifRegistryNames() []string {
+	names := make([]string, 0, len(oxxFieldHeaderMap))
+	for k := range oxxFieldHeaderMap {
+		names = append(names, k)
+	}
+	sort.Strings(names)
+	return names
+}
+
+// VerifRegistryRaw returns the stored (not copied) registry entry's fields.
+func VerifRegistryRaw(name string) (class uint16, field uint8, length uint8, hasMask bool, ok bool) {
+	f, found := oxxFieldHeaderMap[name]
+	if !found || f == nil {
+		return 0, 0, 0, false, false
+	}
+	return f.Class, f.Field, f.Length, f.HasMask, true
+}
+
+func VerifEncodeOfsNbits(ofs uint16, nBits uint16) uint16 { return encodeOfsNbits(ofs, nBits) }
+
+func VerifEncodeOfsNbitsStartEnd(start uint16, end uint16) uint16 {
+	return encodeOfsNbitsStartEnd(start, end)
+}
+
+func VerifDecodeOfs(ofsNbits uint16) uint16 { return decodeOfs(ofsNbits) }
+
+func VerifDecodeNbits(ofsNbits uint16) uint16 { return decodeNbits(ofsNbits) }
